@@ -87,21 +87,28 @@ class _Modal(Contract):
         rf = raw.snapshot_fn()
         return Arr((raw.axes[0],), lambda jd: rf((jd[0], (i,))), "complex")
 
-    def time_unit_lemma(self, c, w, dt, shift=None):
+    def time_unit_lemma(self, c, w, dt, correct=None):
         """C08: declaring the same samples at kappa times the sampling frequency (dt -> dt / kappa) multiplies every frequency by
-        kappa and leaves every damping ratio unchanged (the eigen-decomposition does not see dt)"""
+        kappa and leaves every damping ratio unchanged (the eigen-decomposition does not see dt).  `correct(lam, dt)` is whatever
+        the specification applies to the continuous-time pole afterwards (the exponential-window correction of the correlogram
+        estimator): the clause is stated over the pole the function REPORTS, i.e. the specification its result was proved equal to."""
         i = S.integer("pole_i", lo=0)
         kappa = S.real("kappa", pos=True)
+        correct = correct or (lambda lam, dt_: lam)
 
         def lem():
             mu = w.cell(((i,),))
-            lam1 = continuous(mu, dt)
             old, c.numpy_mode = c.numpy_mode, 0
             try:
                 dt2 = sym.div(dt, kappa)
             finally:
                 c.numpy_mode = old
-            lam2 = continuous(mu, dt2)
+            c.numpy_mode += 1
+            try:
+                lam1 = correct(continuous(mu, dt), dt)
+                lam2 = correct(continuous(mu, dt2), dt2)
+            finally:
+                c.numpy_mode -= 1
             f1, x1 = freq_damp(lam1)
             f2, x2 = freq_damp(lam2)
             c.numpy_mode += 1
@@ -188,6 +195,18 @@ class _Poly(_Modal):
         A, Cm, dt = self.tables(c)
         return {"A": A, "C": Cm, "dt": dt, "methodSy": self.method, "nxseg": S.integer("nxseg", lo=3)}
 
+    @staticmethod
+    def window_correction(methodSy, nxseg):
+        """what the code does to a continuous-time pole for the correlogram estimator (mirrors the source; the postcondition
+        pins it, the time-unit lemma judges it)"""
+        def f(v, dt):
+            if methodSy == "cor":
+                # written in the code's own order of operations: -(nxseg - 1) / log(0.01)   (equal terms, no solver search)
+                tau = sym.div(sym.neg(sym.sub(nxseg, 1)), sym.log_(sym.toF(0.01)))
+                v = sym.add(v, sym.div(1, sym.mul(tau, dt)))
+            return v
+        return f
+
     def spec(me, c, A, C, dt, methodSy, nxseg):
         w, vr = MM.eig(A)
         wf = w.snapshot_fn()
@@ -207,11 +226,7 @@ class _Poly(_Modal):
             c.numpy_mode += 1
             try:
                 v = sym.Lazy.choose(unstable(i), lambda: NANC, lambda: lam0(i)) if False else sym.ite(unstable(i), NANC, lam0(i))
-                if methodSy == "cor":
-                    # written in the code's own order of operations: -(nxseg - 1) / log(0.01)   (equal terms, no solver search)
-                    tau = sym.div(sym.neg(sym.sub(nxseg, 1)), sym.log_(sym.toF(0.01)))
-                    v = sym.sub(v, sym.div(1, tau))
-                return v
+                return me.window_correction(methodSy, nxseg)(v, dt)
             finally:
                 c.numpy_mode -= 1
         lam = Arr(w.axes, lam_c, "complex")
@@ -226,8 +241,7 @@ class _Poly(_Modal):
         Contract.check(me, c, pre, post, outcome)
         if outcome[0] == "return":
             me.unit_lemma(c, outcome[1][2])
-            if me.method == "per":
-                me.time_unit_lemma(c, MM.eig(pre["A"])[0], pre["dt"])
+            me.time_unit_lemma(c, MM.eig(pre["A"])[0], pre["dt"], correct=me.window_correction(me.method, pre["nxseg"]))
             # roots with positive real part are blanked in every table
             fn, xi, phi, lam = outcome[1]
             A, dt = pre["A"], pre["dt"]
@@ -264,6 +278,10 @@ class ac2mp_poly_per(_Poly):
 class ac2mp_poly_cor(_Poly):
     name = "cor"
     method = "cor"
+
+    def _no_correction(me, c, A, C, dt, methodSy, nxseg):
+        return _Poly.spec(me, c, A, C, dt, "per", nxseg)
+    canaries = {"no window correction for the correlogram estimator": spec_canary(_no_correction)}
 
 
 # ----------------------------------------------------------------------------------------------------------------------
